@@ -157,15 +157,19 @@ CLAIMED = {
             "(measure-array marks every element); the evaluator model's guard is that machine's test + EXHAUSTIVE operation sequences up to "
             "length 4 (5 in the thorough tier) over two qubits rendered through every access path (array element, function parameter, "
             "qubit[] parameter, object field, method using the bare field / this.field) with the Lean machine as oracle and the Lean "
-            "evaluator as reference for the class-free renderings",
-            "Proof on the flag machine for every history; the access-path clause (aliasing in the evaluator) is tied by exhaustive small "
+            "evaluator as reference for the class-free renderings; whole-evaluator invariant (Eval/FlagsAgree): in every state a class-free "
+            "program reaches the evaluator's measured flags equal the simulator's, so the by-index guard refuses exactly the simulator's "
+            "measured qubits whatever the access path",
+            "Proof on the flag machine for every history and on the evaluator model for every class-free program; the access-path clause (aliasing in the evaluator) is tied by exhaustive small "
             "sequences through every path (bounded), PARTIAL for object fields (no Lean evaluator reference for classes).",
             "Trusted: Lean kernel (core-only), renderer, harness+orchestrator.", "DESIGN.md §4 C06"),
     "C09": ("Lean 4 theorems about the evaluator model's environment: a call starts a frame of one empty scope, lookup is a function of the "
             "current frame only (a callee never sees caller locals), an assignment leaves every scope below the current frame unchanged (never "
             "changes them) + differential renaming runs: seeded class-free programs x single-function renamings to fresh and to colliding "
-            "names (real pipeline and Lean evaluator), class programs rendered with colliding vs all-fresh local/parameter names",
-            "Proof on the model's scope discipline; PARTIAL: the renaming corollary for whole programs and the class fragment (fields, "
+            "names (real pipeline and Lean evaluator), class programs rendered with colliding vs all-fresh local/parameter names; "
+            "whole-evaluator theorem by an induction principle over the evaluator model (Eval/Closed, Eval/Frame): any call of any function "
+            "gives the same result and final state whatever the caller's environment, and hands that environment back untouched",
+            "Proof on the model's scope discipline, for primitives and for every call/statement of the class-free evaluator model; PARTIAL: the renaming corollary for whole programs and the class fragment (fields, "
             "methods, constructors, field initialisers) are checked differentially (bounded), not by an alpha-equivalence theorem.",
             "Trusted: Lean kernel (core-only), generators, harness+orchestrator. Defect found and repaired: dynamic scoping through the "
             "caller's frames (fac25a0).", "DESIGN.md §4 C09"),
